@@ -32,7 +32,7 @@ def jobs(tier):
 
 
 class Tally(Harness):
-    witnesses = ('all_with_disabled_and_failed', 'named_disabled_runs', 'only_skipped', 'list_runs_nothing', 'last_fails')
+    witnesses = ('all_with_disabled_and_failed', 'named_disabled_runs', 'only_skipped', 'list_runs_nothing', 'last_fails', 'lookalike_comment_on_a_later_line')
 
     def __init__(self, job):
         self.m = hrun.install()
@@ -43,6 +43,8 @@ class Tally(Harness):
         self.count = z3.Int('n_doctests')
         self.out = [z3.Int('outcome%d' % i) for i in range(N)]
         self.dis = [z3.Bool('force_disabled%d' % i) for i in range(N)]
+        # a comment on a LATER line that merely begins like one of the disabling markers (does not disable)
+        self.look = [z3.Bool('lookalike_comment%d' % i) for i in range(N)]    # only the first doctest's is used (keeps the schedule small)
         self.cmd = z3.Int('command')          # 0 all, 1 list, 2+2i callname of i, 3+2i callname:num of i
         self.base = [self.count >= 1, self.count <= N, self.cmd >= 0, self.cmd < 2 + 2 * self.count]
         for i in range(N):
@@ -51,12 +53,13 @@ class Tally(Harness):
         runner._gather_zero_arg_examples = lambda ident: []
         self.stubs = hrun.STUB_NOTES + ['core.parse_doctestables -> the symbolic doctest list', 'runner._gather_zero_arg_examples -> []', 'print -> dropped']
 
-    def make(self, i, outcome, disabled, callname, num):
+    def make(self, i, outcome, disabled, callname, num, lookalike=False):
         m = self.m
         D = m['directive']
         E = hrun.ENV
         head = '>>> # DISABLE_DOCTEST\n' if disabled else ''
-        dt = m['doctest_example'].DocTest(head + '>>> x = %d\n' % i, None, callname, num, 10 * (i + 1), mode='pytest')
+        tail = '>>> # Disable the cache before the lookup\n>>> #failing lookups fall back\n' if lookalike else ''
+        dt = m['doctest_example'].DocTest(head + '>>> x = %d\n' % i + tail, None, callname, num, 10 * (i + 1), mode='pytest')
         dt.config['colored'] = False
         base = 10 * i
         P = m['doctest_part'].DoctestPart
@@ -97,9 +100,12 @@ class Tally(Harness):
         for i in range(n):
             o = OUTCOMES[int(SymInt(self.out[i]))]
             d = bool(SymBool(self.dis[i]))
+            la = i == 0 and bool(SymBool(self.look[i]))
+            if la and not d:
+                ex.witness('lookalike_comment_on_a_later_line', True)
             # doctests 0 and 1 belong to the same callable (f:0, f:1), the others to g2, g3 ...
             callname, num = ('f', i) if i < 2 else ('g%d' % i, 0)
-            dt, c = self.make(i, o, d, callname, num)
+            dt, c = self.make(i, o, d, callname, num, la)
             cfgs.append((o, d, callname, num))
             dts.append(dt)
             calls.append(c)
@@ -161,7 +167,7 @@ class Tally(Harness):
         def n(v):
             return model.eval(v, model_completion=True).as_long()
         cnt = n(self.count)
-        docs = [{'outcome': OUTCOMES[n(self.out[i])], 'force_disabled': z3.is_true(model.eval(self.dis[i], model_completion=True)),
+        docs = [{'outcome': OUTCOMES[n(self.out[i])], 'force_disabled': z3.is_true(model.eval(self.dis[i], model_completion=True)), 'lookalike': i == 0 and z3.is_true(model.eval(self.look[i], model_completion=True)),
                  'name': ('f:%d' % i) if i < 2 else 'g%d:0' % i} for i in range(cnt)]
         c = n(self.cmd)
         if c == 0:
@@ -265,6 +271,8 @@ def replay(job, cex):
             body = SRC[doc['outcome']]
             if doc['force_disabled']:
                 body = '>>> # DISABLE_DOCTEST\n' + body
+            if doc.get('lookalike'):
+                body = body + '\n>>> # Disable the cache before the lookup\n>>> #failing lookups fall back'
             return '    Example:\n' + '\n'.join('        ' + l for l in body.split('\n')) + '\n'
         src = 'def f():\n    """\n' + ''.join(block(x) + '\n' for x in docs[:2]) + '    """\n\n'
         for i, x in enumerate(docs[2:], start=2):
